@@ -145,7 +145,12 @@ def extract_cleanup_steps(repo: Path):
                     raise RuntimeError(f"{cname}._cleanup: the result match has an unexpected body")
                 out.append("matchResult")
             elif isinstance(st, ast.Assign) and ast.unparse(st.targets[0]) == "self.variables":
-                if ast.unparse(st.value) != "[v for v in self.variables if 'external' not in v.attribs]":
+                forms = {"[v for v in self.variables if 'external' not in v.attribs]": False,
+                         # since fix 04d703a the keyword is compared in lower case
+                         "[v for v in self.variables if 'external' not in [attr.lower() for attr in v.attribs]]": True}
+                if ast.unparse(st.value) in forms:
+                    EXTERNAL_CI.append(forms[ast.unparse(st.value)])
+                if ast.unparse(st.value) not in forms:
                     raise RuntimeError(f"{cname}._cleanup: unexpected assignment to self.variables: {text[:90]!r}")
                 out.append("dropExternal")
             elif isinstance(st, ast.Assign) and ast.unparse(st.targets[0]).startswith("self.all_procs"):
@@ -174,6 +179,9 @@ def extract_cleanup_steps(repo: Path):
 CLEANUP: dict = {}  # filled by translate(): the step orders last written
 
 
+EXTERNAL_CI: list = []
+
+
 def lean_str(s: str) -> str:
     return '"' + s.replace("\\", "\\\\").replace('"', '\\"') + '"'
 
@@ -182,7 +190,17 @@ def translate():
     repo = common.REPO
     sites = extract_sites(repo)
     auto = extract_autoescape(repo)
+    EXTERNAL_CI.clear()
     steps = extract_cleanup_steps(repo)
+    if not EXTERNAL_CI or any(x != EXTERNAL_CI[0] for x in EXTERNAL_CI):
+        raise RuntimeError(f"sourceform.py: the `external` filter of _cleanup was not found in one form: {EXTERNAL_CI}")
+    common.write_if_changed(
+        common.LEAN / "FordModel" / "Generated" / "C18Cfg.lean",
+        "/- GENERATED by translate/c18.py from ford/sourceform.py - do not edit -/\n"
+        "namespace Ford.Generated.C18Cfg\n\n"
+        "/-- the `external` filter of `_cleanup` compares the attribute in lower case -/\n"
+        f"def externalCI : Bool := {'true' if EXTERNAL_CI[0] else 'false'}\n\n"
+        "end Ford.Generated.C18Cfg\n")
     CLEANUP.clear()
     CLEANUP.update(steps)
 
